@@ -60,9 +60,24 @@ def identicalSubs (members : List Member) : Bool :=
 /-- number of partitions one member received -/
 def load (o : Str × Dict Str (List Int)) : Nat := (pairsOf o.2).length
 
-/-- With identical subscriptions the members' loads differ by at most one. -/
+/-- number of partitions the observation hands to member `id` (0 when it is not answered at all) -/
+def loadFor (obs : Obs) (id : Str) : Nat :=
+  match dget id obs with
+  | some a => (pairsOf a).length
+  | none => 0
+
+/-- With identical subscriptions the loads of any two listed members differ by at most one. -/
 def balanced (members : List Member) (obs : Obs) : Bool :=
-  !identicalSubs members || obs.all fun a => obs.all fun b => load a ≤ load b + 1
+  !identicalSubs members ||
+    members.all fun a => members.all fun b => loadFor obs a.1 ≤ loadFor obs b.1 + 1
+
+/-- What the leader's glue needs from `_load_topic_partitions`: the snapshot has an entry, with at
+    least one partition, for every topic that was asked for. -/
+def loadCovers (asked : List Str) (snap : Dict Str (List Int)) : Bool :=
+  asked.all fun t =>
+    match dget t snap with
+    | some ps => !ps.isEmpty
+    | none => false
 
 /-- What a member decodes is exactly what it was assigned (same `(topic, partition)` pairs). -/
 def decodesOwn (assigned decoded : Dict Str (List Int)) : Bool :=
@@ -83,6 +98,17 @@ def encodable (a : Dict Str (List Int)) : Bool :=
   decide (a.length < 2147483648) && a.all fun e =>
     e.1.all (· < 128) && decide (e.1.length ≤ 32767) && decide (e.2.length < 2147483648) &&
       e.2.all fun p => decide (-2147483648 ≤ p) && decide (p < 2147483648)
+
+/-- UTF-8 length of one code point -/
+def utf8CharLen (c : Nat) : Nat := if c < 0x80 then 1 else if c < 0x800 then 2 else if c < 0x10000 then 3 else 4
+
+/-- Range hypotheses of the subscription encoder: fewer than 2^31 subscriptions; every topic name
+    made of Unicode scalar values (no surrogates, nothing above U+10FFFF) and at most 32767 bytes
+    long in UTF-8. -/
+def subsEncodable (subs : List Str) : Bool :=
+  decide (subs.length < 2147483648) && subs.all fun t =>
+    t.all (fun c => decide (c < 0x110000) && !(decide (0xD800 ≤ c) && decide (c ≤ 0xDFFF))) &&
+      decide ((t.map utf8CharLen).sum ≤ 32767)
 
 /-- What the members observe: each one decodes the bytes the leader produced for it
     (`none` when some member cannot decode its assignment). -/
